@@ -108,6 +108,7 @@ CHECKS = {
              "start_server (Chain.tla) decide that each connection is judged on its own certificate. "
              "Thorough: real TLS on the PyOpenSSL backend in memory with RSA/EC/Ed25519 client certificates."
              " Assembly.tla (CertRulesAsConfigured, FlagNeverIgnored) binds the `nauyaca serve` front end: the file's rules reach start_server whatever CLI / ENV overrides are present."
+             " Rule lists include rules for the location of an index file (what a request for the directory delivers); deviation DevIndexNotJudged."
              " Tokens with an undecodable segment cancelled by '..' and with an encoded backslash."
              " Paths of 4-6 segments beyond the enumerated instance, every one judged by the observation specification.",
         note="Trusted: TLC; sentinel identification; capsule without symlinks (C02 covers links)."),
@@ -123,7 +124,8 @@ CHECKS = {
              "the byte-level oracle."
              " Random classified streams (400 / 2 000) and pairs of overlapping calls on one client object (150 / 600) are recorded and validated by TLC against ClientConnTrace."
              " The server may talk before the request has left: Rx / PeerEnds are enabled before Verify in ClientConn, and the harness holds create_connection until the Verify action."
-             " decode_cost: the Deliver step is charged its processor time - 256 KiB bodies under every charset label and alias Python knows, get and upload; a step that would hold the loop longer than 10 s at the 10 MiB cap is not prompt (virtual time cannot see a decoder that blocks the loop).",
+             " decode_cost: the Deliver step is charged its processor time - 256 KiB bodies under every charset label and alias Python knows, get and upload; a step that would hold the loop longer than 10 s at the 10 MiB cap is not prompt (virtual time cannot see a decoder that blocks the loop)."
+             " live_nonsuccess: the real client against a scripted TLS peer of the check's own - a non-2x header followed by more bytes in the same / a later write, close_notify or a bare TCP close: the answer complete at the CRLF is the result (ClientConn.Rx, deviation DevNonSuccessAtClose).",
         note="Trusted: TLC; fake transport contract; the byte-level oracle of checks/clientconn.py (expected_body)."),
     "C11": dict(
         engine="ClientConn", design="8 C11, 5.6, Appendix D",
